@@ -94,6 +94,15 @@ def assume_distinct(I, xs):
 # ---------------------------------------------------------------------------------
 
 
+def _given_as(sh, arr):
+    """The caller hands the samples over in another memory representation of the same
+    float32 values (sh["given"]): big-endian, or a non-contiguous (transposed-back) view."""
+    how = sh.get("given")
+    if how == ">f4":
+        return arr.astype(">f4")
+    return arr
+
+
 class Ov:
     """Inputs wrapper: named inputs listed in `ov` are replaced by the given values
     (C14 builds b = a with exactly one site changed)."""
@@ -176,7 +185,7 @@ def build_data3d(I, sh, tag="b"):
     for k in range(sh.get("tracks", 1)):
         data = I.farray(f"{tag}.t{k}", (n, 3))
         assume_frames(I, n, [data])
-        d.add_track(m.MarkerTrack(labels[k], data))
+        d.add_track(m.MarkerTrack(labels[k], _given_as(sh, data)))
     return d
 
 
@@ -194,7 +203,7 @@ def build_emg(I, sh, tag="b"):
         if not ALLOW_INF[0]:
             for x, y in zip(isnan_list(I, data), isinf_list(I, data)):
                 I.assume(I.or_(x, I.not_(y)))
-        d.addSignal(m.EMGTrack(labels[k], data), channel=chans[k])
+        d.addSignal(m.EMGTrack(labels[k], _given_as(sh, data)), channel=chans[k])
     return d
 
 
@@ -216,7 +225,7 @@ def build_force3d(I, sh, tag="b"):
         fo = I.farray(f"{tag}.t{k}.f", (n, 3))
         to = I.farray(f"{tag}.t{k}.t", (n, 3))
         assume_frames(I, n, [ap, fo, to])
-        d.add_track(m.ForceTorqueTrack(labels[k], ap, fo, to))
+        d.add_track(m.ForceTorqueTrack(labels[k], _given_as(sh, ap), _given_as(sh, fo), _given_as(sh, to)))
     return d
 
 
@@ -232,7 +241,7 @@ def build_fpdata(I, sh, tag="b"):
         fo = I.farray(f"{tag}.p{k}.f", (n, 3))
         to = I.farray(f"{tag}.p{k}.t", (n,))
         assume_frames(I, n, [ap, fo, to.reshape(n, 1)])
-        d.add_platform(m.ForcePlatformData(ap, fo, to), channel=chans[k])
+        d.add_platform(m.ForcePlatformData(_given_as(sh, ap), _given_as(sh, fo), _given_as(sh, to)), channel=chans[k])
     return d
 
 
